@@ -265,6 +265,9 @@ def defTree : Definition → TNode
 shown their parent's context) -/
 def nameOrTypeKind (k : String) : Bool := k == "Name" || k == "Named" || k == "List" || k == "NonNull"
 
+/-- drop the records of Name / Named / List / NonNull nodes -/
+def obs (l : List TIRec) : List TIRec := l.filter (fun r => !nameOrTypeKind r.kind)
+
 def docTree (d : Document) : TNode := .mk "Document" d.loc .other (d.defs.map defTree)
 
 def isExecDoc (d : Document) : Bool := d.defs.all isExecDef
